@@ -107,7 +107,13 @@ pub struct Shards {
     pub weights: Vec<u64>,
     unit_pending: bool,
     pub units: u64,
+    dir: String,
+    prefix: String,
+    bytes: Vec<u64>,
+    parts: Vec<u32>,
 }
+/// a trace file is read into memory as a whole by the validator: start a new part beyond this size
+const PART_BYTES: u64 = 40 << 20;
 impl Shards {
     pub fn new(dir: &str, prefix: &str, n: usize) -> Self {
         std::fs::create_dir_all(dir).unwrap();
@@ -118,7 +124,7 @@ impl Shards {
                 )
             })
             .collect();
-        Shards { files, counts: vec![0; n], cur: 0, weights: vec![0; n], unit_pending: true, units: 0 }
+        Shards { files, counts: vec![0; n], cur: 0, weights: vec![0; n], unit_pending: true, units: 0, dir: dir.to_string(), prefix: prefix.to_string(), bytes: vec![0; n], parts: vec![0; n] }
     }
     /// Select the lightest shard for the next unit.
     pub fn next_unit(&mut self) {
@@ -131,6 +137,15 @@ impl Shards {
         self.cur = best;
         self.unit_pending = true;
         self.units += 1;
+        if self.bytes[best] > PART_BYTES {
+            // units are independent histories: a new part is a trace of its own
+            self.files[best].flush().unwrap();
+            self.parts[best] += 1;
+            self.bytes[best] = 0;
+            self.files[best] = std::io::BufWriter::new(
+                std::fs::File::create(format!("{}/{}_{:02}_p{:03}.ndjson", self.dir, self.prefix, best, self.parts[best])).unwrap(),
+            );
+        }
     }
     pub fn emit(&mut self, line: &str) {
         self.emit_w(line, 1);
@@ -146,6 +161,7 @@ impl Shards {
             f.write_all(line.as_bytes()).unwrap();
         }
         f.write_all(b"\n").unwrap();
+        self.bytes[self.cur] += line.len() as u64 + 10;
         self.counts[self.cur] += 1;
         self.weights[self.cur] += weight;
     }
